@@ -37,6 +37,14 @@ def _check_fill(present_idx, L, rng, fill, viol, cnt):
     start = gen.T0 + rng.randrange(0, 1000) * 60000
     end = start + (L - 1) * 60000
     batch = [_mk(start + i * 60000, rng) for i in sorted(present_idx)]
+    # the batch is not always handed over oldest-first (an exchange may answer newest-first; merged pages are unordered)
+    order = rng.choice(['ascending', 'ascending', 'descending', 'shuffled'])
+    if order == 'descending':
+        batch.reverse()
+    elif order == 'shuffled':
+        rng.shuffle(batch)
+    if order != 'ascending' and len(batch) > 1:
+        cnt['fill_cases_unordered_batch'] = cnt.get('fill_cases_unordered_batch', 0) + 1
     snap = [dict(c) for c in batch]
     cnt['fill_cases'] = cnt.get('fill_cases', 0) + 1
     cnt['fill_missing_minutes'] = cnt.get('fill_missing_minutes', 0) + (L - len(batch))
